@@ -14,6 +14,7 @@ import (
 )
 
 type frameRec struct {
+	static  bool // entered through STATICCALL, or a descendant of such a frame (from the call structure)
 	lastGas uint64
 	lastMem int
 	lastOp  byte
@@ -61,7 +62,11 @@ func (o *stepObs) step(depth int, pc uint64, op byte, gas uint64, stackLen int, 
 	if depth > len(o.frames) {
 		// a new frame (possibly several levels if empty-code frames were skipped: not possible, Run observes every level)
 		for len(o.frames) < depth {
-			o.frames = append(o.frames, frameRec{lastGas: gas, lastMem: memLen, lastOp: op, lastPc: pc})
+			st := false
+			if n := len(o.frames); n > 0 {
+				st = o.frames[n-1].static || o.frames[n-1].lastOp == 0xfa
+			}
+			o.frames = append(o.frames, frameRec{static: st, lastGas: gas, lastMem: memLen, lastOp: op, lastPc: pc})
 		}
 		return
 	}
@@ -69,6 +74,9 @@ func (o *stepObs) step(depth int, pc uint64, op byte, gas uint64, stackLen int, 
 		o.frames = o.frames[:depth]
 	}
 	f := &o.frames[depth-1]
+	if f.static && isWriteOp(f.lastOp) {
+		o.add("write-op-survives-static", fmt.Sprintf("depth %d: op 0x%02x at pc %d ran inside a STATICCALL context and the frame went on", depth, f.lastOp, f.lastPc))
+	}
 	if gas > f.lastGas {
 		o.add("gas-increases-within-frame", fmt.Sprintf("depth %d: gas %d before op 0x%02x at pc %d, %d one iteration later", depth, f.lastGas, f.lastOp, f.lastPc, gas))
 	}
@@ -93,4 +101,18 @@ func installStepHook() {
 			obs.step(depth, pc, op, gas, stackLen, memLen)
 		}
 	}
+}
+
+// SSTORE, LOG0-4, CREATE, CREATE2, SELFDESTRUCT, TSTORE (a value-bearing CALL is seen through the StateDB)
+func isWriteOp(op byte) bool {
+	return op == 0x55 || (op >= 0xa0 && op <= 0xa4) || op == 0xf0 || op == 0xf5 || op == 0xff || op == 0x5d
+}
+
+// is the frame that is executing now inside a STATICCALL, judged from the call structure only
+func (o *stepObs) insideStatic() bool {
+	n := len(o.frames)
+	if n == 0 {
+		return false
+	}
+	return o.frames[n-1].static
 }
